@@ -21,8 +21,10 @@ DecOk(r) ==
   IF mode = "chaos" THEN r.res \in {"need", "frame", "err"} /\ tpos' = tpos /\ tk' = tk /\ dead' = (r.res = "err")
   ELSE LET S == DecodeStep(Lens2, tfed, tpos, tk)
            atBad == bad # 0 /\ tk + 1 = bad /\ tfed - tpos >= 4
-       IN IF mode = "oversize" /\ atBad
-          THEN r.res = "err" /\ dead' = TRUE /\ tpos' = tpos /\ tk' = tk
+       IN IF mode \in {"oversize", "shortlen"} /\ atBad
+          THEN \* a length above the maximum, or a length that cuts the body short (a strict prefix of a postcard
+               \* encoding never decodes: every byte of it is needed): an error, never a bogus message
+               r.res = "err" /\ dead' = TRUE /\ tpos' = tpos /\ tk' = tk
           ELSE IF mode = "body" /\ atBad /\ S.res = "frame"
           THEN \* a corrupted body: an error, or some frame of the same length (never "need")
                /\ r.res \in {"err", "frame"} /\ dead' = (r.res = "err")
@@ -30,7 +32,7 @@ DecOk(r) ==
                /\ tk' = IF r.res = "frame" THEN S.k ELSE tk
           ELSE /\ r.res = S.res /\ dead' = FALSE
                \* decoded value = the value sent (values are not logged for streams with a corrupted frame)
-               /\ (S.res = "frame" /\ mode # "body") => r.p = frames[S.k].p
+               /\ (S.res = "frame" /\ mode \notin {"body", "shortlen"}) => r.p = frames[S.k].p
                /\ tpos' = S.pos /\ tk' = S.k
 
 Step ==
